@@ -118,7 +118,7 @@ class CHECK(vlib.Check):
 
     def gen_cases(self, rng, tier):
         out = []
-        n_rand = 600 if tier == "quick" else 12000
+        n_rand = 600 if tier == "quick" else 4000
         for i in range(n_rand):
             n = rng.choice([2, 2, 3, 3, 3, 4])
             if i % 5 == 4:
@@ -129,7 +129,7 @@ class CHECK(vlib.Check):
                 stream = "random"
             seed = "-" if i % 10 == 0 else str(rng.randint(1, 10 ** 9))
             out.append((stream, "p=%d,n=%d,seed=%s,sch=|%s" % (rng.randint(0, 1), n, seed, interleave(rng, progs))))
-        reps = 6 if tier == "quick" else 60
+        reps = 6 if tier == "quick" else 30
         for (n, body) in DIRECTED:
             for pref in (0, 1):
                 out.append(("directed", "p=%d,n=%d,seed=-,sch=|%s" % (pref, n, body)))
@@ -140,7 +140,7 @@ class CHECK(vlib.Check):
             if tier == "quick":
                 todo = [(n, b, k, 600) for (n, b, k) in EXPLORE_QUICK]
             else:
-                todo = [(n, b, 2, 6000) for (n, b) in DIRECTED[:8] + DIRECTED[-2:]] + [(n, b, 3, 6000) for (n, b, _) in EXPLORE_QUICK[:2] + EXPLORE_QUICK[-2:]]
+                todo = [(n, b, 2, 1500) for (n, b) in DIRECTED[:8] + DIRECTED[-2:]] + [(n, b, 3, 2500) for (n, b, _) in EXPLORE_QUICK[-2:]]
             if not getattr(self, "_explored", None) or self._explored[0] != tier:
                 cache = []
                 for (n, body, bound, cap) in todo:
